@@ -2591,8 +2591,9 @@ class Scan(Generic[X, R], GFI[X, R]):
         )
 
         total_weight = jnp.sum(weights)
-        # discards will be vectorized, so we need to handle them appropriately
-        any_discards = jnp.any(jtu.tree_map(lambda x: x is not None, discards))
+        # discards will be vectorized; `None` entries (nothing resampled) are not
+        # pytree leaves, so the discard is empty iff it has no leaves.
+        any_discards = bool(jtu.tree_leaves(discards))
 
         new_tr = ScanTr(self, (args, kwargs), new_traces, final_carry, outs)
         return new_tr, total_weight, discards if any_discards else None
